@@ -190,6 +190,9 @@ class ModelFittingDataTree(ProblemSingleObjective):
                     rows=rows,
                     cols=cols,
                     readout_times=times,
+                    out_rows=processor.detector.geometry.row,
+                    out_cols=processor.detector.geometry.col,
+                    out_readout_times=len(self.readout.times),
                 )
 
             else:
@@ -204,6 +207,9 @@ class ModelFittingDataTree(ProblemSingleObjective):
                     out_fit_range=out_fit_range,
                     rows=rows,
                     cols=cols,
+                    out_rows=processor.detector.geometry.row,
+                    out_cols=processor.detector.geometry.col,
+                    out_readout_times=len(self.readout.times),
                 )
                 self._configure_weights(
                     weights=weights,
